@@ -68,6 +68,27 @@ type Op struct {
 	WriteTick     int64 // >0: WithWriteTime(Epoch+tick)
 
 	ReadMask *fieldmaskpb.FieldMask
+	Include  string // List only: "", "id<b", "counter-odd", "has-derived" (see IncludeFn)
+}
+
+// IncludeFn returns the named List predicate over (id, stored message); the predicates look at the id, at the counter
+// field and at the derived string field so that a read mask can hide what they inspect.
+func IncludeFn(name string) func(id string, m proto.Message) bool {
+	switch name {
+	case "id<b":
+		return func(id string, _ proto.Message) bool { return id < "b" }
+	case "counter-odd":
+		return func(_ string, m proto.Message) bool { return GetCounter(m)%2 != 0 }
+	case "has-derived":
+		return func(_ string, m proto.Message) bool {
+			if m == nil || !m.ProtoReflect().IsValid() {
+				return false
+			}
+			fd := DerivedField(m.ProtoReflect().Descriptor())
+			return fd != nil && m.ProtoReflect().Get(fd).String() != ""
+		}
+	}
+	return nil
 }
 
 func (o Op) String() string {
@@ -89,6 +110,9 @@ func (o Op) String() string {
 	opt("resetMask", o.ResetMask)
 	opt("moreWritable", o.MoreWritable)
 	opt("readMask", o.ReadMask)
+	if o.Include != "" {
+		fmt.Fprintf(&sb, " include=%s", o.Include)
+	}
 	if o.AllWritable {
 		sb.WriteString(" allWritable")
 	}
@@ -141,6 +165,7 @@ func (o Op) OptionKey() string {
 	add(o.Before != "", "ib")
 	add(o.After != "", "ia")
 	add(o.WriteTick > 0, "wt")
+	add(o.Include != "", "inc")
 	return string(o.Kind) + "[" + strings.Join(k, ",") + "]"
 }
 
